@@ -36,6 +36,7 @@ func renderName(cs []string) string {
 type trackStep struct {
 	A    string     `json:"a"`
 	Name []string   `json:"name"`
+	Kind string     `json:"kind"` // trackfails: which failing invocation
 	Lfs  [][]string `json:"lfs"`
 }
 type trackBehaviour struct {
@@ -143,6 +144,16 @@ func replayTrack(c *core.Ctx, lfsBin string, b *trackBehaviour, idx int, names [
 			args = []string{"track", name}
 		case "untrackfile", "untrackpattern":
 			args = []string{"untrack", name}
+		case "trackfails":
+			name = map[string]string{"dotgitattributes": ".gitattributes", "dotgitstar": ".git*", "missingfile": "*.dat"}[s.Kind]
+			args = []string{"track", name}
+			// .gitattributes is a file Git knows (that is what makes the pattern forbidden); gone.dat is in
+			// the index and not in the work tree
+			os.WriteFile(filepath.Join(repo, "gone.dat"), []byte("data\n"), 0o644)
+			if r := env.Git(repo, "add", "--", ".gitattributes", "gone.dat"); !r.OK() {
+				return nil, fmt.Errorf("git add: %s", r.All())
+			}
+			os.Remove(filepath.Join(repo, "gone.dat"))
 		}
 		prev, _ := os.ReadFile(attrs)
 		r := env.RunIn(repo, []string{"GIT_LFS_TRACK_NO_INSTALL_HOOKS=1"}, nil, 60*time.Second, "git-lfs", args...)
